@@ -8,22 +8,35 @@ def run(rep: Report, repo: Repo, tier: str) -> None:
     rep.unit("src/cminx/documentation_types.py", "src/cminx/rstwriter.py", "src/cminx/documenter.py")
     rep.assume("docutils acceptance of the text is not decided; the nesting clause is: every emission of an entry goes through the "
                "entry's own directive, and every line of nested content carries the directive's indent")
-    render.rule_ownership(rep, repo, "C07-R1")
-    writer_rules.rule_line_start_indent(rep, repo, "C07-R2a")
-    writer_rules.rule_indent_plumbing(rep, repo, "C07-R2b")
-    misc_rules.rule_document_order(rep, repo, "C07-R3")
-    misc_rules.rule_writer_first_element(rep, repo, "C07-R3w")
-    writer_rules.rule_directive_order(rep, repo, "C07-R4")
+    with rep.isolated():
+        render.rule_ownership(rep, repo, "C07-R1")
+    with rep.isolated():
+        writer_rules.rule_line_start_indent(rep, repo, "C07-R2a")
+    with rep.isolated():
+        writer_rules.rule_indent_plumbing(rep, repo, "C07-R2b")
+    with rep.isolated():
+        misc_rules.rule_document_order(rep, repo, "C07-R3")
+    with rep.isolated():
+        misc_rules.rule_writer_first_element(rep, repo, "C07-R3w")
+    with rep.isolated():
+        writer_rules.rule_directive_order(rep, repo, "C07-R4")
     # nested reST constructs inside a doc text (directive bodies, literal blocks) are only valid if the cleaner keeps the
     # relative indentation of the doccomment lines and the paragraph prefixes every line uniformly
-    misc_rules.rule_clean_parameters(rep, repo, "C07-R5")
-    writer_rules.rule_paragraph(rep, repo, "C07-R5p")
+    with rep.isolated():
+        misc_rules.rule_clean_parameters(rep, repo, "C07-R5")
+    with rep.isolated():
+        writer_rules.rule_paragraph(rep, repo, "C07-R5p")
     from . import bindings
-    bindings.rule_module_doc_verbatim(rep, repo, "C07-R5m")
-    render.rule_doc_starts_block(rep, repo, "C07-R6")
+    with rep.isolated():
+        bindings.rule_module_doc_verbatim(rep, repo, "C07-R5m")
+    with rep.isolated():
+        render.rule_doc_starts_block(rep, repo, "C07-R6")
     # members are nested in their own class's directive: attachment goes to the innermost open class
     from . import protocol
-    protocol.rule_classstack(rep, repo, "C07-R7")
+    with rep.isolated():
+        protocol.rule_classstack(rep, repo, "C07-R7")
     # values reach the text as written: CMinx introduces no line break of its own into a field or argument
-    writer_rules.rule_values_verbatim(rep, repo, "C07-R8")
-    render.rule_no_line_breaks_introduced(rep, repo, "C07-R9")
+    with rep.isolated():
+        writer_rules.rule_values_verbatim(rep, repo, "C07-R8")
+    with rep.isolated():
+        render.rule_no_line_breaks_introduced(rep, repo, "C07-R9")
